@@ -528,3 +528,103 @@ func RunConcurrent(seed uint64, goroutines, opsEach, nkeys int) (string, ConcSta
 }
 
 var _ = bytes.Equal
+
+// ---- cache multistore: all substores are written together, none before Write -------------------------
+
+type CMOp struct {
+	Store int    `json:"s"`
+	Del   bool   `json:"d,omitempty"`
+	Key   B      `json:"k"`
+	Val   string `json:"v,omitempty"`
+}
+
+type CMProg struct {
+	NStores int      `json:"stores"`
+	Rounds  [][]CMOp `json:"rounds"`  // ops of each cache-wrap round
+	Commit  []bool   `json:"commit"`  // Write() or discard after each round
+	Nested  []bool   `json:"nested"`  // run the round inside a second-level CacheMultiStore that is written first
+}
+
+func GenCMProg(r *sim.Rand) CMProg {
+	p := CMProg{NStores: 1 + r.Intn(4)}
+	for i := 0; i < 2+r.Intn(6); i++ {
+		var ops []CMOp
+		for j := 0; j < r.Intn(10); j++ {
+			o := CMOp{Store: r.Intn(p.NStores), Key: B(cAlpha[r.Intn(len(cAlpha))])}
+			if r.Chance(30) {
+				o.Del = true
+			} else {
+				o.Val = fmt.Sprintf("r%d.%d", i, j)
+			}
+			ops = append(ops, o)
+		}
+		p.Rounds = append(p.Rounds, ops)
+		p.Commit = append(p.Commit, r.Chance(70))
+		p.Nested = append(p.Nested, r.Chance(30))
+	}
+	return p
+}
+
+// RunCMProg checks the cache multistore obtained from a real rootmulti store.
+func RunCMProg(p *CMProg, rep Reporter) {
+	h := &MSHist{NStores: p.NStores, Pruning: &[2]int64{0, 1}}
+	in := openMS(dbm.NewMemDB(), h)
+	if err := in.rs.LoadLatestVersion(); err != nil {
+		return
+	}
+	model := make(content, p.NStores)
+	for i := range model {
+		model[i] = map[string]string{}
+	}
+	for ri, ops := range p.Rounds {
+		cms := in.rs.CacheMultiStore()
+		target := cms
+		if p.Nested[ri] {
+			target = cms.CacheMultiStore()
+		}
+		view := cloneContent(model)
+		for _, o := range ops {
+			st := target.GetKVStore(in.keys[o.Store])
+			if o.Del {
+				st.Delete([]byte(o.Key))
+				delete(view[o.Store], string(o.Key))
+			} else {
+				st.Set([]byte(o.Key), []byte(o.Val))
+				view[o.Store][string(o.Key)] = o.Val
+			}
+		}
+		rep.Count("c15.cachemulti.rounds", 1)
+		// the overlay shows the writes, the root multistore does not (yet)
+		for si := range in.keys {
+			got := map[string]string{}
+			for _, kv := range drain(target.GetKVStore(in.keys[si]).Iterator(nil, nil)) {
+				got[kv[0]] = kv[1]
+			}
+			if d := diffContent(content{view[si]}, content{got}); d != "" {
+				rep.Violate("C15", "cachemulti-view", fmt.Sprintf("round %d: cache multistore view of store%d differs from the overlay model: %s", ri, si, d))
+			}
+		}
+		if d := diffContent(model, in.dump(h)); d != "" {
+			rep.Violate("C15", "cachemulti-parent-changed-before-write", fmt.Sprintf("round %d: the root multistore changed before Write: %s", ri, d))
+		}
+		if p.Commit[ri] {
+			if p.Nested[ri] {
+				target.Write()
+				if d := diffContent(model, in.dump(h)); d != "" {
+					rep.Violate("C15", "cachemulti-parent-changed-before-write", fmt.Sprintf("round %d: writing the inner cache multistore already changed the root: %s", ri, d))
+				}
+			}
+			cms.Write()
+			model = view
+			rep.Count("c15.cachemulti.writes", 1)
+			if d := diffContent(model, in.dump(h)); d != "" {
+				rep.Violate("C15", "cachemulti-after-write", fmt.Sprintf("round %d: after Write the root multistore differs from the overlaid view: %s", ri, d))
+			}
+		} else {
+			rep.Count("c15.cachemulti.discards", 1)
+			if d := diffContent(model, in.dump(h)); d != "" {
+				rep.Violate("C15", "cachemulti-discard-had-effect", fmt.Sprintf("round %d: a discarded cache multistore changed the root: %s", ri, d))
+			}
+		}
+	}
+}
